@@ -40,7 +40,8 @@ INVALID = [
 ]
 # contradictory / mis-typed ones found by review of parse_args (a style named on and keyed off,
 # colour values of a type that cannot name a colour)
-INVALID += [[["bold"], {"bold": False}], [[], {"style": "underline", "underline": False}],
+INVALID += [[["bold"], {"bold": 0}], [[], {"style": "italic", "italic": 0}],
+            [["bold"], {"bold": False}], [[], {"style": "underline", "underline": False}],
             [[], {"fg": [31]}], [[], {"bg": {}}], [[], {"fg": 31.5}], [[], {"fg": True}], [[], {"bg": b"blue"}]]
 # unusual but meaningful values: ValueError or the obvious meaning (see kind "lenient")
 LENIENT = [[[], {"bold": 0}, {"bold": False}], [[], {"bold": None}, {"bold": False}], [[], {"underline": ""}, {"underline": False}],
@@ -216,6 +217,18 @@ def _run_case(ctx, case, rng):
                   got=obs.show(got) if got is not None else None, detail=problems)
         if obs.cells(f) != F:
             ctx.judge(False, case, mech="C14:operand-changed")
+    elif kind == "shared-no-runs":
+        # a FmtStr without any run (f * 0, sep.join([]), FmtStr()): no character, so nothing shared
+        from curtsies.formatstring import FmtStr as _F
+        how = case["how"]
+        try:
+            f = {"mul0": lambda: obs.build([["ab", {"fg": 31}]]) * 0, "join": lambda: obs.build([[",", {"bold": True}]]).join([]),
+                 "ctor": lambda: _F(), "splice": lambda: obs.build([["ab", {"fg": 31}]]).splice("", 0, 2)}[how]()
+            sh = dict(f.shared_atts)
+            ctx.judge(sh == {} or len(f) == 0 and all(not c for c in [f.s]), case, ("C14", "shared-no-runs", how),
+                      "C14:shared_atts-on-value-without-runs", {}, sh)
+        except Exception as ex:  # noqa
+            ctx.judge(False, case, ("C14", "shared-no-runs", how), "C14:shared_atts-on-value-without-runs", {}, repr(ex))
     elif kind == "shared":
         spec = case["fmt"]
         f = obs.build(spec)
@@ -252,7 +265,9 @@ def _run_case(ctx, case, rng):
                     r = (fmtstr(base) if isinstance(base, str) else base).copy_with_new_atts(**dict(kwargs))
                 else:
                     r = fmtstr(base, *args, **dict(kwargs))
-                ctx.judge(False, case, mech="C14:copy_with_new_atts-unvalidated" if via_cwna else "C14:invalid-accepted",
+                falsy_style = any(k in obs.STYLES and v is not False and not v for k, v in kwargs.items())
+                ctx.judge(False, case, mech="C14:copy_with_new_atts-unvalidated" if via_cwna else
+                          "C14:style-named-and-given-a-falsy-value" if falsy_style else "C14:invalid-accepted",
                           expected="ValueError", got=repr(r))
             except ValueError:
                 ctx.judge(True, case, ("C14", "invalid", repr(args), repr(kwargs), isinstance(base, str)))
@@ -340,6 +355,8 @@ def run(ctx):
             run_case(ctx, {"kind": "casevariant", "args": a, "kwargs": kw, "atts": atts})
         for a, kw, meaning in LENIENT:
             run_case(ctx, {"kind": "lenient", "args": a, "kwargs": kw, "meaning": meaning})
+        for how in ("mul0", "join", "ctor", "splice"):
+            run_case(ctx, {"kind": "shared-no-runs", "how": how})
         # the same through copy_with_new_atts (keyword specifications only): unknown names and bad
         # values raise ValueError; colour names are either refused or mean what they mean in fmtstr
         for a, kw in INVALID:
